@@ -699,7 +699,7 @@ def c03(ctx):
 
 def c17(ctx):
     acc = Acc()
-    n = pick(ctx, 15000, 150000)
+    n = pick(ctx, 15000, 60000)
     traces = {}
     for prof in ('dev', 'release'):
         traces[prof] = '%s/c17_%s.ndjson' % (ctx.work, prof)
